@@ -14,6 +14,13 @@
  * Shape bound: MAXATTR entries, CAP octets, names of at most 3 characters, values of at most 8 octets (larger values
  * only change lengths: the size arithmetic is 16-bit and covered by the header-size obligations).
  */
+/* the lock-free structure pool (C07) is replaced by its sequential contract: alloc hands out a structure obtained
+ * from the pool's alloc callback (here: one static object) or NULL, free gives it back; both are counted */
+#include <upipe/upool.h>
+static inline void *stub_upool_alloc_internal(struct upool *upool);
+static inline void stub_upool_free(struct upool *upool, void *obj);
+#define upool_alloc_internal stub_upool_alloc_internal
+#define upool_free stub_upool_free
 #include "lib/upipe/udict_inline.c"
 #include "vspec.h"
 #include "vstub_choice.h"
@@ -29,6 +36,27 @@ static struct udict_inline_mgr g_im; static struct udict_inline g_inl;
 static uint8_t g_store[CAP], g_store2[GROW];
 static struct umem_mgr g_umgr;
 static int g_reallocs;
+/* second dictionary (dup / alloc): pool object and memory handed out by the stubs */
+static struct udict_inline g_inl2; static uint8_t g_store3[CAP];
+static int g_pool_live, g_pool_allocs, g_umem_live, g_umem_allocs; static size_t g_umem_req;
+static inline void *stub_upool_alloc_internal(struct upool *upool)
+{
+    g_pool_allocs++;
+    if (g_pool_live > 0) return NULL;
+    g_pool_live++; g_inl2.udict.mgr = &g_im.mgr;
+    return &g_inl2;
+}
+static inline void stub_upool_free(struct upool *upool, void *obj) { if (obj == &g_inl2) g_pool_live--; else g_pool_live = -100; }
+static bool stub_umem_alloc(struct umem_mgr *mgr, struct umem *umem, size_t size)
+{
+    g_umem_allocs++; g_umem_req = size;
+    if (size > CAP || g_umem_live > 0 || (VS_CHOICE(umem_alloc_fails) & 1)) return false;
+    g_umem_live++;
+    { uint8_t junk = (uint8_t)VS_CHOICE(umem_junk); for (int k = 0; k < CAP; k++) g_store3[k] = junk; }      /* fresh memory holds anything */
+    umem->mgr = mgr; umem->buffer = g_store3; umem->size = size; umem->real_size = CAP;
+    return true;
+}
+static void stub_umem_free(struct umem *umem) { if (umem->buffer == g_store3) g_umem_live--; else g_umem_live = -100; }
 static bool stub_umem_realloc(struct umem *umem, size_t new_size)
 {
     g_reallocs++;
@@ -112,7 +140,8 @@ static inline int H_spec_wf_tlv(const uint8_t *b, size_t size, size_t cap) { ret
 /* ---- entries ------------------------------------------------------------------------------------------------ */
 static struct udict *build_dict(const uint8_t *bytes, size_t size)
 {
-    g_umgr.umem_realloc = stub_umem_realloc;
+    g_umgr.umem_realloc = stub_umem_realloc; g_umgr.umem_alloc = stub_umem_alloc; g_umgr.umem_free = stub_umem_free;
+    g_pool_live = g_pool_allocs = g_umem_live = g_umem_allocs = 0; g_umem_req = 0;
     g_im.min_size = 0; g_im.extra_size = 8; g_im.umem_mgr = &g_umgr;
     g_im.mgr.udict_alloc = udict_inline_alloc; g_im.mgr.udict_control = udict_inline_control; g_im.mgr.udict_free = udict_inline_free;
     g_im.mgr.udict_mgr_control = udict_inline_mgr_control;
@@ -231,6 +260,57 @@ void h_iterate(void)
 #else
     VPOST(seen <= count);        /* (with duplicate keys in the arbitrary storage iteration restarts after the first duplicate) */
 #endif
+    VCANARY();
+}
+
+/* dup: the copy answers every lookup as the original does (ghost key, ghost octet), from storage of its own; the original
+ * is untouched; a failed dup leaves nothing allocated.  Then a set on the copy does not change what the original answers
+ * ("a duplicate is independent of its original"). */
+void h_dup(void)
+{
+    BUILD(); KEY(k1, t1, a_); KEY(k2, t2, b_);
+    VIN(uint8_t, minsz); VASSUME(minsz >= 1 && minsz <= CAP); g_im.min_size = minsz;      /* manager invariant: udict_inline_mgr_alloc stores a positive minimum */
+    struct vget before = do_get(d, k2, t2, gi);
+    struct udict *nd = NULL;
+    int ret = udict_inline_dup(d, &nd);
+    struct vget after = do_get(d, k2, t2, gi);
+    VPOST(SAME_ANSWER(before, after) && g_inl.size == used && g_inl.umem.buffer == g_store);
+    if (ret == UBASE_ERR_NONE) {
+        VPOST(nd == &g_inl2.udict && nd->mgr == &g_im.mgr && g_inl2.umem.buffer == g_store3 && g_inl2.size == used && g_umem_req >= used);
+        VPOST(g_pool_live == 1 && g_umem_live == 1);
+        struct vget copy = do_get(nd, k2, t2, gi);
+        VPOST(SAME_ANSWER(before, copy));
+        VPOST(H_spec_wf_tlv(g_inl2.umem.buffer, g_inl2.size, g_inl2.umem.size) >= 0);
+        /* independence: change the copy, the original still answers the same */
+        VIN(uint8_t, n); VASSUME(n <= 8);
+        { enum udict_type base_ = t1 > UDICT_TYPE_SHORTHAND ? inline_shorthands[t1 - UDICT_TYPE_SHORTHAND - 1].base_type : t1;
+          if (base_ != UDICT_TYPE_OPAQUE && base_ != UDICT_TYPE_STRING) VASSUME(n == attr_sizes[base_]); }
+        uint8_t *slot = NULL; VIN(uint8_t, fill);
+        if (udict_inline_set(nd, k1, t1, n, &slot) == UBASE_ERR_NONE && slot != NULL)
+            for (int k = 0; k < 8; k++) { if (k >= n) break; slot[k] = fill; }
+        struct vget orig = do_get(d, k2, t2, gi);
+        VPOST(SAME_ANSWER(before, orig) && g_inl.size == used);
+    } else {
+        VPOST(g_pool_live == 0 && g_umem_live == 0);
+    }
+    VCANARY();
+}
+/* alloc gives an empty dictionary (every lookup absent, iteration ends at once); free gives back memory and structure once */
+void h_alloc_free(void)
+{
+    BUILD(); KEY(k2, t2, b_); VIN(uint8_t, asize);
+    VIN(uint8_t, minsz); VASSUME(minsz >= 1 && minsz <= CAP); g_im.min_size = minsz;      /* manager invariant: udict_inline_mgr_alloc stores a positive minimum */
+    struct udict *nd = udict_inline_alloc(&g_im.mgr, asize);
+    if (nd != NULL) {
+        VPOST(nd == &g_inl2.udict && g_pool_live == 1 && g_umem_live == 1 && g_inl2.size == 1 && g_umem_req >= 1);
+        VPOST(!do_get(nd, k2, t2, gi).found);
+        const char *name = NULL; enum udict_type type = UDICT_TYPE_END;
+        udict_inline_iterate(nd, &name, &type);
+        VPOST(type == UDICT_TYPE_END);
+        udict_inline_free(nd);
+        VPOST(g_pool_live == 0 && g_umem_live == 0);
+    } else
+        VPOST(g_pool_live == 0 && g_umem_live == 0);
     VCANARY();
 }
 #ifdef VENTRY
